@@ -14,7 +14,7 @@ use super::*;
 use std::fmt::Write as _;
 use std::io::Write as _;
 
-fn fam(s: &str) -> Family {
+pub(crate) fn fam(s: &str) -> Family {
     match s {
         "v4" => Family::IPV4,
         "v6" => Family::IPV6,
@@ -23,7 +23,7 @@ fn fam(s: &str) -> Family {
     }
 }
 
-fn fam_name(f: Family) -> &'static str {
+pub(crate) fn fam_name(f: Family) -> &'static str {
     if f == Family::IPV4 {
         "v4"
     } else if f == Family::IPV6 {
@@ -35,7 +35,7 @@ fn fam_name(f: Family) -> &'static str {
     }
 }
 
-fn fams(s: &str) -> Vec<Family> {
+pub(crate) fn fams(s: &str) -> Vec<Family> {
     if s == "-" { vec![] } else { s.split(',').map(fam).collect() }
 }
 
@@ -74,6 +74,24 @@ fn proj_deferral(d: &RestartingDeferral, peers: &[String]) -> String {
             None => "[]".to_string(),
         };
         parts.push(format!("\"{}\":{}", p, s));
+    }
+    format!("{{\"st\":\"{}\",\"pending\":{{{}}}}}", st, parts.join(","))
+}
+
+/// Projection of the deferral machine for a caller that names the peers itself (the C11 glue replay in event.rs).
+pub(crate) fn proj_deferral_named(d: &RestartingDeferral, peers: &[(String, IpAddr)]) -> String {
+    let (st, pending): (&str, Option<&FnvHashMap<IpAddr, FnvHashSet<Family>>>) = match &d.state {
+        RestartingInner::AwaitingStart { pending, .. } => ("Awaiting", Some(pending)),
+        RestartingInner::Deferring { pending } => ("Deferring", Some(pending)),
+        RestartingInner::Completed => ("Completed", None),
+    };
+    let mut parts = Vec::new();
+    for (name, addr) in peers {
+        let s = match pending.and_then(|m| m.get(addr)) {
+            Some(s) => famset(s.iter()),
+            None => "[]".to_string(),
+        };
+        parts.push(format!("\"{}\":{}", name, s));
     }
     format!("{{\"st\":\"{}\",\"pending\":{{{}}}}}", st, parts.join(","))
 }
